@@ -3,8 +3,9 @@
 Archives a confirmed seeded change under /verif/seeded/<PROP>-<n>/ (patch.diff, demo.cpp, meta.json)."""
 import json, os, shutil, sys
 P, n, det, tier, note = sys.argv[1:6]
-src = "/tmp/seeds/%s/%s" % (P, n)
-dst = "/verif/seeded/%s-%s" % (P, n)
+src = "%s/%s/%s" % (os.environ.get("SEEDS_DIR", "/tmp/seeds"), P, n)
+kept = str(int(n) + int(os.environ.get("SEED_OFFSET", "0")))      # second batch: SEEDS_DIR=/tmp/seeds2 SEED_OFFSET=3
+dst = "/verif/seeded/%s-%s" % (P, kept)
 os.makedirs(dst, exist_ok=True)
 for f in ("patch.diff", "demo.cpp"):
     shutil.copy(os.path.join(src, f), dst)
@@ -13,7 +14,7 @@ conf = open(os.path.join(src, "confirm.log")).read().strip().splitlines()[-1] if
 meta.update({"property": P, "origin": "independent sub-agent given only the property text and a scratch worktree",
              "confirmed": conf,
              "ran": ["selftest/seed_confirm.sh %s %s   (apply in scratch worktree, build lib+tests, ctest, demo fails; revert, demo passes)" % (P, n),
-                     "selftest/seed_run.sh %s seeded/%s-%s/patch.diff %s   (check against a scratch copy of /repo with the patch)" % (P, P, n, tier)],
+                     "selftest/seed_run.sh %s seeded/%s-%s/patch.diff %s   (check against a scratch copy of /repo with the patch)" % (P, P, kept, tier)],
              "detected": det, "detected_by": note})
 json.dump(meta, open(os.path.join(dst, "meta.json"), "w"), indent=1)
 print("kept", dst)
